@@ -86,6 +86,17 @@ def visit_constant_kinds(args):
             return True, "ast.Constant(%r) is accepted, expected ValueError" % (value,)
         except ValueError:
             pass
+    # literals that compare equal but differ in kind, one after the other in ONE translation (same visitor object)
+    want = {int: "int", float: "double", bool: "bool"}
+    for seq in ([1.0, True, 1], [True, 1.0], [2, 2.0], [2.0, 2], [0, False, 0.0], [False, 0, 0.0]):
+        v = _visitor()
+        for value in seq:
+            node = ast.Constant(value=value)
+            v.visit_Constant(node)
+            text = "true" if value is True else "false" if value is False else str(value)
+            if node.rep.as_cpp() != text or node.rep.cpp_type().type != want[type(value)]:
+                return True, "in one translation the literals %r: ast.Constant(%r) is rendered as `%s` of C++ kind %s, expected `%s` of kind %s" % (
+                    seq, value, node.rep.as_cpp(), node.rep.cpp_type().type, text, want[type(value)])
     return False, "ok"
 
 
